@@ -118,4 +118,21 @@ PLAN = {
             {"name": "miri", "leg": "miri", "flavour": "miri", "shards": 8, "shards_thorough": 64, "timeout": 1200},
         ],
     },
+    "C14": {
+        "level": "exploration",
+        "rule": "sweep leg: every operation sequence of length <= 3 over a 9-op alphabet (clone, into_owned, drop, compare/hash, move to "
+                "another thread + clone + drop there, as_ref/Debug or KeyName/Key round trip, clone().into_owned(), Label/Key round trip, "
+                "empty/default) for each of 30 constructor shapes (borrowed / owned with len,cap in {0,1,2,7,8,33}x{=,>} / shared) over "
+                "Cow<[Elem]> (drop-counting elements) and Cow<str> (complete for that scope); random leg: 1-4 values, 1-25 ops. After "
+                "every op: content vs model, Arc::strong_count vs model, live-element count vs model. asan/miri legs run the same sequences "
+                "with LeakSanitizer / Miri's borrow tracker and leak checker. distinct = sequence hash.",
+        "assumptions": ["the harness keeps one clone of every Arc so counts are observable", "raw buffer leaks are only visible to LSan/Miri, not to the native leg"],
+        "legs": [
+            {"name": "sweep", "flavour": "native", "shards": 4, "shards_thorough": 8},
+            {"name": "random", "flavour": "native", "shards": 4, "shards_thorough": 16},
+            {"name": "asan", "flavour": "asan", "shards": 8, "shards_thorough": 16},
+            {"name": "miri-sweep", "flavour": "miri", "shards": 12, "shards_thorough": 16, "timeout": 1500},
+            {"name": "miri", "flavour": "miri", "shards": 4, "shards_thorough": 64, "timeout": 1500},
+        ],
+    },
 }
